@@ -496,6 +496,10 @@ func (e *encodeState) string(s string, escapeHTML bool) {
 			switch b {
 			case '\\', '"':
 				e.WriteByte(b)
+			case '\b':
+				e.WriteByte('b')
+			case '\f':
+				e.WriteByte('f')
 			case '\n':
 				e.WriteByte('n')
 			case '\r':
@@ -568,6 +572,10 @@ func (e *encodeState) stringBytes(s []byte, escapeHTML bool) {
 			switch b {
 			case '\\', '"':
 				e.WriteByte(b)
+			case '\b':
+				e.WriteByte('b')
+			case '\f':
+				e.WriteByte('f')
 			case '\n':
 				e.WriteByte('n')
 			case '\r':
